@@ -378,7 +378,7 @@ func (a *Analyzer) execBlock(fr *frame, b *ssa.BasicBlock, st *State) (flows []f
 				cond := a.val(s, x.Cond)
 				a.noteBranch(fr, x, cond)
 				bt, bf := a.branch(s, cond)
-				if a.OnBranch != nil && fr.depth == 0 {
+				if a.OnBranch != nil {
 					if bt != nil {
 						a.OnBranch(fr.fn, x, true, bt)
 					}
@@ -422,9 +422,20 @@ func (a *Analyzer) execBlock(fr *frame, b *ssa.BasicBlock, st *State) (flows []f
 			}
 			return
 		case *ssa.Panic:
+			if b.Comment == "yield-invalid" && !a.RangeFuncYieldExempt && a.extCallback[fr.fn] == 0 {
+				// range-over-func: the iterator called yield again after the loop body had asked it to stop (break /
+				// return inside the loop). The compiler's state variable makes this an ordinary reachability question.
+				for _, s := range states {
+					s := s
+					a.obl("E1.rangefunc", fr.fn, ins, "", false, func() string {
+						return "the iterator can call its yield function again after the loop body returned false (a break or return inside the range loop): the runtime panics with 'range function continued iteration after function for loop body returned false'\n" + s.Describe()
+					})
+				}
+				return
+			}
 			if strings.HasPrefix(b.Comment, "rangefunc.") || b.Comment == "yield-invalid" {
-				// compiler-generated range-over-func protocol check (iterator misuse); exempt,
-				// listed as an assumption: repo iterators call yield as the language requires
+				// remaining compiler-generated range-over-func protocol checks (iterator returned while the body was
+				// still running, resume bookkeeping); exempt, listed as an assumption
 				a.RangeFuncExempt++
 				return
 			}
